@@ -15,7 +15,9 @@ import (
 	"strings"
 
 	"buf.build/gen/go/bufbuild/protovalidate/protocolbuffers/go/buf/validate"
+	"github.com/pentops/j5/gen/j5/schema/v1/schema_j5pb"
 	"github.com/pentops/j5/lib/id62"
+	"github.com/pentops/j5/lib/j5schema"
 	"github.com/pentops/j5/lib/verifshim/compile"
 	"google.golang.org/protobuf/proto"
 	"google.golang.org/protobuf/reflect/protoreflect"
@@ -147,6 +149,45 @@ func stringPatterns(fd protoreflect.FieldDescriptor) []string {
 	return out
 }
 
+// readBackID62 reflects the compiled message back into a J5 schema and reports, per property, whether the
+// (item) schema is recognised as key:id62 — "recognised on read-back" in the property's anchors.
+func readBackID62(md protoreflect.MessageDescriptor) (res map[string]string, err error) {
+	defer func() {
+		if p := recover(); p != nil {
+			err = fmt.Errorf("panic: %v", p)
+		}
+	}()
+	root, err := j5schema.NewSchemaCache().Schema(md)
+	if err != nil {
+		return nil, err
+	}
+	obj := root.ToJ5Root().GetObject()
+	res = map[string]string{}
+	for _, prop := range obj.GetProperties() {
+		f := prop.GetSchema()
+		kind := "direct"
+		if a := f.GetArray(); a != nil {
+			f, kind = a.GetItems(), "array items"
+		} else if m := f.GetMap(); m != nil {
+			f, kind = m.GetItemSchema(), "map values"
+		}
+		k := f.GetKey()
+		switch {
+		case k == nil:
+			res[prop.GetName()] = fmt.Sprintf("%s: not a key (%T)", kind, f.GetType())
+		case k.GetFormat() == nil:
+			res[prop.GetName()] = kind + ": key without format"
+		default:
+			if _, ok := k.GetFormat().GetType().(*schema_j5pb.KeyFormat_Id62); ok {
+				res[prop.GetName()] = "id62"
+			} else {
+				res[prop.GetName()] = fmt.Sprintf("%s: key format %T", kind, k.GetFormat().GetType())
+			}
+		}
+	}
+	return res, nil
+}
+
 func runEmittedPatterns(cfg *vh.Config, r *vh.Rand, res *vh.Result, cf *vh.CasesFile, distinct vh.Distinct, caseNo *int) error {
 	// several files: all forms together, each form alone, and random subsets in random order
 	type fileCase struct {
@@ -201,6 +242,23 @@ func runEmittedPatterns(cfg *vh.Config, r *vh.Rand, res *vh.Result, cf *vh.Cases
 		for _, f := range files {
 			msgs := f.Messages()
 			for m := 0; m < msgs.Len(); m++ {
+				back, berr := readBackID62(msgs.Get(m))
+				res.Count("emit-readback")
+				if berr != nil {
+					res.Fail(vh.Failure{Case: *caseNo, Stream: "emit", Sig: "C20 message with key:id62 fields cannot be reflected back",
+						Clause: "PatternString is ... recognised on read-back", Input: src, Got: berr.Error()})
+				}
+				names := make([]string, 0, len(back))
+				for n := range back {
+					names = append(names, n)
+				}
+				sort.Strings(names)
+				for _, n := range names {
+					if back[n] != "id62" {
+						res.Fail(vh.Failure{Case: *caseNo, Stream: "emit", Sig: "C20 key:id62 field is not recognised as id62 on read-back",
+							Clause: "PatternString is ... recognised on read-back", Input: map[string]any{"j5s": src, "field": n}, Got: back[n], Want: "id62"})
+					}
+				}
 				fields := msgs.Get(m).Fields()
 				for k := 0; k < fields.Len(); k++ {
 					fd := fields.Get(k)
